@@ -293,6 +293,8 @@ def gen_case(seed, extra=None):
         rng.shuffle(dup["goals"])
         if rng.random() < 0.5:
             dup["options"] = dict(rng.choice(OPTION_SWARM))
+            if dup.get("invariants"):
+                dup["options"] = {k: v for k, v in dup["options"].items() if not k.startswith("numeric")}
         sessions.append(dup)
     # step lists
     from .sessions import make_session
